@@ -21,6 +21,12 @@ Lemma C09_table_set_iterations_now : set_iters table = [].
 Proof. reflexivity. Qed.
 Print Assumptions C09_table_set_iterations_now.
 
+(* set iterations on the rendering path that only build the message of an exception being raised (the observation
+   then has no text; the exception class does not depend on the order).  Reviewed list: a new entry must be looked at. *)
+Lemma C09_table_raise_only_iterations_now : map i_fn (raise_iters table) = ["queries.JoinOn.validate_with"].
+Proof. reflexivity. Qed.
+Print Assumptions C09_table_raise_only_iterations_now.
+
 Theorem C09_holds : C09_full_statement.
 Proof. exact (rendering_pure_generic table C09_table_writes_now C09_table_set_iterations_now). Qed.
 Print Assumptions C09_holds.
